@@ -718,6 +718,99 @@ def s_migrate(A):
         st.close()
 
 
+def s_legacy_store(A):
+    """a legacy store (hash_name = md5-dos2unix) sharing one State with md5 lookups: odb.add records its rows under
+    the STORE's algorithm name; CRLF text objects, whose md5-dos2unix id differs from the md5 of their bytes, looked up
+    under md5 through the shared State with unchanged stat: single (get / hash_file), batched (get_many / staging of the
+    store directory), migrate.prepare"""
+    from dvc_data.hashfile.build import build
+    from dvc_data.hashfile.db.migrate import prepare
+    from lib import impl
+
+    datas = [b"l1\r\nl2\r\n", b"a\r\nb", b"plain", b"\x00bin\r\n"]
+    for route in ("lookups", "prepare", "staging"):
+        for cls in ("local", "base"):
+            root, st = A.new("legacy")
+            try:
+                case = {"audit": "legacy-store-rows", "route": route, "odb": cls}
+                legacy = impl.make_odb(cls, os.path.join(root, "legacy"), state=st, hash_name="md5-dos2unix")
+                dest = impl.local_odb(os.path.join(root, "cache"), state=st, hash_name="md5")
+                srcs, oids = [], []
+                for i, d in enumerate(datas):
+                    sp = os.path.join(root, "src", f"s{i}")
+                    A.put(sp, d)
+                    srcs.append(sp)
+                    oids.append(digest("md5-dos2unix", d))
+                legacy.add(srcs, A.fs, oids, hardlink=False)
+                cpaths = [legacy.oid_to_path(o) for o in oids]
+                want = {p: md5(d) for p, d in zip(cpaths, datas)}
+                if route == "prepare":
+                    mig = prepare(legacy, dest)
+                    got = dict(zip(mig.paths, mig.oids))
+                    if got != want:
+                        bad = [(os.path.basename(p), got.get(p), want[p]) for p in cpaths if got.get(p) != want[p]]
+                        A.fail("legacy-store", f"migrate.prepare right after the legacy store's add: (object, answered, md5 of "
+                                               f"bytes) {bad[0]}", case)
+                elif route == "staging":
+                    _, _, obj = build(dest, legacy.path, A.fs, "md5", dry_run=True)
+                    A.judge_tree("legacy-store", obj, legacy.path, "md5 staging of the legacy store's directory", case)
+                A.judge("legacy-store", st, cpaths, f"md5 lookups after the legacy store's add ({route})", case,
+                        algs=("md5", "md5-dos2unix", "md5"))
+                for o in oids:
+                    legacy.check(o)
+                A.judge("legacy-store", st, cpaths, "after the legacy store checked its objects", case)
+                A.dim("route:legacy-store-add+md5-lookup:" + route)
+                A.dim("content:crlf-text-object", 2)
+            finally:
+                st.close()
+
+
+def s_remove_fault(A):
+    """object checkout with a linking cache type when REMOVING the modified workspace file fails (PermissionError /
+    EIO injected on fs.remove of that path): the old bytes stay; whatever checkout does then, no row may vouch for
+    the target hash over them"""
+    from dvc_data.hashfile.checkout import checkout
+    from lib import impl
+
+    for link in ("hardlink", "symlink", "copy"):
+        for err in (errno.EACCES, errno.EIO):
+            root, st = A.new("rmfault")
+            try:
+                case = {"audit": "object-checkout-remove-fault", "link": link, "errno": errno.errorcode[err]}
+                odb = impl.local_odb(os.path.join(root, "cache"), state=st, type=[link])
+                srcd = os.path.join(root, "srcd")
+                for rel, data in {"a": b"AAA", "b": b"BBB", "s/c": b"CCC"}.items():
+                    A.put(os.path.join(srcd, *rel.split("/")), data)
+                _, obj = impl.stage(odb, srcd)
+                ws = os.path.join(root, "ws")
+                for rel, data in {"a": b"old", "b": b"BBB", "s/c": b"ccc"}.items():
+                    A.put(os.path.join(ws, *rel.split("/")), data)
+                victim = os.path.join(ws, "a")
+                fs = A.fs
+                o_remove = fs.remove
+
+                def p_remove(path, *a, _v=victim, _o=o_remove, _e=err, **kw):
+                    targets = path if isinstance(path, (list, tuple)) else [path]
+                    if _v in targets:
+                        raise OSError(_e, os.strerror(_e), _v) if _e != errno.EACCES else PermissionError(_e, os.strerror(_e), _v)
+                    return _o(path, *a, **kw)
+
+                fs.remove = p_remove
+                try:
+                    checkout(ws, fs, obj, odb, force=True, state=st)
+                    A.dim("remove-fault:checkout-returned")
+                except Exception as exc:  # noqa: BLE001
+                    A.dim("remove-fault:checkout-raised:" + type(exc).__name__)
+                finally:
+                    del fs.remove
+                files = sorted(os.path.join(dp, fn) for dp, _, fns in os.walk(ws) for fn in fns)
+                A.judge("remove-fault", st, files, f"after a checkout whose removal of 'a' failed ({errno.errorcode[err]}, {link})",
+                        case, algs=("md5",))
+                A.dim("fault:remove@object-checkout:" + link)
+            finally:
+                st.close()
+
+
 def s_faults(A):
     """a failing read at each position of a staging batch (EIO from the hashing worker, a file that vanished between
     the walk and the read, a dangling symlink in the directory): nothing wrong may be left in the table"""
@@ -810,6 +903,8 @@ def run_audit(ctx):
         ("odb-leftover", lambda: s_odb_leftover(A)),
         ("object-checkout", lambda: s_object_checkout(A)),
         ("migrate", lambda: s_migrate(A)),
+        ("legacy-store", lambda: s_legacy_store(A)),
+        ("remove-fault", lambda: s_remove_fault(A)),
         ("faults", lambda: s_faults(A)),
         ("state-flag", lambda: s_state_flag(A)),
     ]
